@@ -21,7 +21,7 @@
          input  L [A 4; tmo ri; tmo T; lock; L recv_script; L sel_script; ...]      output as one op 1 entry
    op 5  UDPNetworkClient.send_packet(data, timeout=T)
          input  L [A 5; tmo ri; tmo T; lock; B data; L sock_script; L sel_script; ...]   output as op 3          *)
-From EN Require Import Lib.Bytes Lib.Sx IO.Retry IO.SendAll IO.SendMsg IO.Budget Gen.ParamsC04.
+From EN Require Import Lib.Bytes Lib.Sx IO.Retry IO.SendAll IO.SendMsg IO.Budget Gen.ParamsC11.
 Open Scope Z_scope.
 
 Definition as_tmo (x : sx) : option tmo := as_opt as_Z x.
